@@ -101,6 +101,8 @@ def run(chk):
     else:
         instance(chk, "odd", "odd", 44, 47, ["R", "NN"], base="N")
     library(chk, ORDER, maxn=3 if thorough else 2, extra=("N", "R"))
+    from . import c08
+    c08.redispatch(chk, ORDER)     # HandleContext from the last and from a middle handler of a chain: every handler at most once
     chk.exhaustive = True
     recorded(chk, 3000 if thorough else 400, ORDER)
     if thorough:   # the composition: registration programs with scripted handlers + request histories on a caching router
